@@ -60,6 +60,36 @@ pub fn shrink(v: &Value, fails: &dyn Fn(&Value) -> bool) -> Value {
     }
 }
 
+/// Values shaped like the expansion of a quotation shorthand, and near misses:
+/// (h), (h a), (h a b), (h a . b), (h . a), (h (h a)), #(h a), ((h a) . b), (a h b)
+/// for h in quote / quasiquote / unquote / unquote-splicing / function.
+pub fn quote_shaped() -> Vec<Value> {
+    let mut out = Vec::new();
+    let (a, b) = (Value::symbol("a"), Value::symbol("b"));
+    for h in ["quote", "quasiquote", "unquote", "unquote-splicing", "function"] {
+        let hs = Value::symbol(h);
+        let inner = Value::list(vec![hs.clone(), a.clone()]);
+        out.extend([
+            Value::list(vec![hs.clone()]),
+            inner.clone(),
+            Value::list(vec![hs.clone(), a.clone(), b.clone()]),
+            Value::append(vec![hs.clone(), a.clone()], b.clone()),
+            Value::cons(hs.clone(), a.clone()),
+            Value::list(vec![hs.clone(), inner.clone()]),
+            Value::vector(vec![hs.clone(), a.clone()]),
+            Value::cons(inner.clone(), b.clone()),
+            Value::list(vec![a.clone(), hs.clone(), b.clone()]),
+            Value::list(vec![hs.clone(), Value::Null]),
+            Value::list(vec![hs.clone(), Value::list(vec![a.clone(), b.clone()])]),
+            Value::append(vec![hs.clone(), inner.clone()], Value::from(1)),
+            Value::list(vec![hs.clone(), Value::string("s")]),
+            Value::list(vec![Value::keyword(h), a.clone()]),
+            Value::list(vec![Value::string(h), a.clone()]),
+        ]);
+    }
+    out
+}
+
 pub fn char_class(c: char) -> &'static str {
     let n = c as u32;
     match n {
